@@ -57,6 +57,19 @@ class PropertyRun:
         cdir = os.path.join(V.ROOT, "corpus", self.pid)
         if os.path.isdir(cdir):
             for f in sorted(os.listdir(cdir)):
+                if os.path.isdir(os.path.join(cdir, f)):
+                    continue
+                for line in open(os.path.join(cdir, f)):
+                    line = line.strip()
+                    if line and not line.startswith("#"):
+                        lines.append(line)
+        return lines
+
+    def corpus_lines_sub(self, pname):
+        lines = []
+        cdir = os.path.join(V.ROOT, "corpus", self.pid, pname)
+        if os.path.isdir(cdir):
+            for f in sorted(os.listdir(cdir)):
                 for line in open(os.path.join(cdir, f)):
                     line = line.strip()
                     if line and not line.startswith("#"):
@@ -76,17 +89,9 @@ class PropertyRun:
         return lines
 
 
-def run_property(spec, tier, seed):
-    """Returns process exit code."""
+def proof_phase(spec, tier):
+    """Steps 1-3. Returns a dict; `proof_break` is set when a proof no longer checks."""
     pid = spec["pid"]
-    R = PropertyRun(spec, tier, seed)
-    known, _fixed = V.load_known(pid)
-    known_preds = {sig: spec.get("known_sigs", {}).get(sig) for sig, _ in known}
-    viol_lines = []         # text of VIOLATION lines
-    known_hits = collections.OrderedDict()
-    assumptions_used = list(spec.get("assumptions", []))
-
-    # 1-3: proofs -------------------------------------------------------------------------
     if "translator" in spec:
         spec["translator"]()
     bad = V.scan_forbidden()
@@ -95,7 +100,6 @@ def run_property(spec, tier, seed):
     ok, out = V.make_targets(spec["coq_targets"])
     proof_break = None
     if not ok:
-        # a broken proof: decide whether it is one of the generated side conditions
         proof_break = out[-3000:]
     names, printed, assum, okp, outp = ([], [], {}, False, "")
     if ok:
@@ -118,13 +122,27 @@ def run_property(spec, tier, seed):
         if not okc:
             raise V.Infra("coqchk rejected the compiled development:\n" + outc[-3000:])
         chk_note = " ".join(outc.split())[-400:]
+    return {"proof_break": proof_break, "names": names, "assum": assum,
+            "obligations": obligations, "discharged": discharged, "chk_note": chk_note}
 
-    # 4: harness ----------------------------------------------------------------------------
-    V.cargo_build()
 
-    # 5-6: correspondence + monitors ---------------------------------------------------------
-    tcfg = spec[tier]
-    lines = R.corpus_lines()
+def script_phase(spec, part, tier, seed, proof_break):
+    """Steps 5-7 for one part (a harness driver + Checks module). Returns a dict of results."""
+    pid = spec["pid"]
+    sub = dict(spec)
+    sub.update(part)
+    R = PropertyRun(sub, tier, seed)
+    pname = part.get("name")
+    if pname:
+        R.odir = os.path.join(V.OUT, pid, pname)
+        os.makedirs(R.odir, exist_ok=True)
+    known, _fixed = V.load_known(pid)
+    known_preds = {sig: sub.get("known_sigs", {}).get(sig) for sig, _ in known}
+    viol_lines = []
+    known_hits = collections.OrderedDict()
+
+    tcfg = sub[tier]
+    lines = R.corpus_lines() if not pname else R.corpus_lines_sub(pname)
     ncorpus = len(lines)
     lines += R.gen_lines(seed, tcfg["count"])
     if tier == "thorough":
@@ -135,7 +153,6 @@ def run_property(spec, tier, seed):
 
     searched = 0
     if (mism or proof_break) and not monf:
-        # the tie is broken but no trace violates the monitor yet: search further
         extra = []
         for k in range(1, 11):
             extra += R.gen_lines(seed * 1000 + k, tcfg["count"])
@@ -150,11 +167,12 @@ def run_property(spec, tier, seed):
                 monf.append(len(lines) - 1)
                 break
 
-    # 7: verdict ------------------------------------------------------------------------------
     # rejections not explained by a known class (verdict bit 2 unset) first
     monf.sort(key=lambda i: 1 if (codes[i] & 4) else 0)
     seen_small = set()
-    for i in monf[:spec.get("max_shrinks", 6)]:
+    tag = f"{pname}-" if pname else ""
+    rel_odir = os.path.relpath(R.odir, os.path.join(V.OUT, pid))
+    for i in monf[:sub.get("max_shrinks", 4)]:
         small = R.shrink(lines[i])
         if small in seen_small:
             continue
@@ -168,91 +186,120 @@ def run_property(spec, tier, seed):
         if hit:
             known_hits.setdefault(hit, small)
             continue
-        replay = V.write_replay(pid, f"replay-{len(viol_lines)}.json", {
-            "property": pid, "kind": "monitor-rejects-implementation-trace",
+        replay = V.write_replay(pid, f"replay-{tag}{len(viol_lines)}.json", {
+            "property": pid, "part": pname, "kind": "monitor-rejects-implementation-trace",
             "script": small, "original_script": lines[i], "seed": seed,
             "implementation_observations": scases[0]["obs"],
-            "model_observations": V.model_output(pid, spec, scases[0]),
-            "replay_cmd": f"./check {pid} --replay '{small}'"})
+            "model_observations": V.model_output(pid, sub, scases[0]),
+            "replay_cmd": f"./check {pid} --replay '{small}'" + (f" --part {pname}" if pname else "")})
         viol_lines.append(f"VIOLATION property={pid} replay={replay}")
-    if len(monf) > spec.get("max_shrinks", 6):
-        R.notes.append(f"{len(monf)} failing traces, first {spec.get('max_shrinks', 6)} shrunk")
+    if len(monf) > sub.get("max_shrinks", 4):
+        R.notes.append(f"{len(monf)} failing traces, first {sub.get('max_shrinks', 4)} shrunk")
 
     if not monf and (mism or proof_break):
         i = mism[0] if mism else None
-        obj = {"property": pid, "kind": "no-failing-input-found", "seed": seed,
+        obj = {"property": pid, "part": pname, "kind": "no-failing-input-found", "seed": seed,
                "searched_scripts": len(lines) + searched}
         if proof_break:
             obj["broken"] = f"proof obligation of Properties/{pid}.v (or a file it depends on) no longer checks"
             obj["coq_output_tail"] = proof_break
         if i is not None:
-            small_cfg, toks = script_split(lines[i])
-            obj["broken_correspondence"] = f"Checks/{pid}check.v: model and implementation differ"
+            obj["broken_correspondence"] = f"{sub['cases_header'].split('Checks.')[-1].split('.')[0]}: model and implementation differ"
             obj["script"] = lines[i]
             obj["implementation_observations"] = cases[i]["obs"]
-            obj["model_observations"] = V.model_output(pid, spec, cases[i])
+            obj["model_observations"] = V.model_output(pid, sub, cases[i])
             obj["mismatching_scripts"] = len(mism)
-        replay = V.write_replay(pid, "replay-tie.json", obj)
+        replay = V.write_replay(pid, f"replay-{tag}tie.json", obj)
         viol_lines.append(f"VIOLATION property={pid} replay={replay} no-failing-input-found")
 
-    # evidence --------------------------------------------------------------------------------
+    # known findings re-established from their committed witnesses
+    known_msgs = []
+    for sig, small in known_hits.items():
+        known_msgs.append(f"KNOWN-FINDING: property={pid} {sig}: {dict(known)[sig]} [script {small}]")
+    for sig, _ in known:
+        w = sub.get("known_witness", {}).get(sig)
+        if sig not in known_hits and w:
+            wc, wcodes = R.run_scripts([w], "known")
+            if wcodes[0] & 2:
+                known_msgs.append(f"KNOWN-FINDING: property={pid} {sig}: {dict(known)[sig]} [script {w}]")
+                known_hits[sig] = w
+            else:
+                known_msgs.append(f"note: known finding {sig} no longer reproduces on its witness {w}")
+
     nontriv = set()
     tag_hist = collections.Counter()
     for l, c in zip(lines, cases):
         for t in c["tags"]:
             tag_hist[t] += 1
-        if spec["nontrivial"](c):
+        if sub["nontrivial"](c):
             nontriv.add(l)
     sizes = collections.Counter(min(c["nops"] // 10 * 10, 90) for c in cases)
     samples = []
     for i in list(range(min(2, len(cases)))) + ([len(cases) - 1] if len(cases) > 2 else []):
-        samples.append({"script": lines[i], "implementation_observations": cases[i]["obs"][:600],
+        samples.append({"part": pname, "script": lines[i],
+                        "implementation_observations": cases[i]["obs"][:600],
                         "verdict_code": codes[i]})
+    return {"name": pname, "viol": viol_lines, "known_msgs": known_msgs,
+            "known_hits": list(known_hits.keys()), "evaluations": len(cases) + searched,
+            "nontrivial": len(nontriv), "samples": samples, "corpus": ncorpus,
+            "ops_total": sum(c["nops"] for c in cases), "tag_hist": dict(tag_hist),
+            "sizes": {str(k): v for k, v in sorted(sizes.items())}, "mism": len(mism),
+            "monf": len(monf), "notes": R.notes, "rule": sub["rule"]}
+
+
+def run_property(spec, tier, seed):
+    """Returns process exit code."""
+    pid = spec["pid"]
+    t0 = time.time()
+    P = proof_phase(spec, tier)
+    V.cargo_build()
+    parts = spec.get("parts") or [{}]
+    results = [script_phase(spec, part, tier, seed, P["proof_break"]) for part in parts]
+
+    viol_lines = [v for r in results for v in r["viol"]]
     coverage = {
-        "obligations": max(obligations, 1),
-        "discharged": discharged,
+        "obligations": max(P["obligations"], 1),
+        "discharged": P["discharged"],
         "checker_cmd": f"make -C coq {' '.join(spec['coq_targets'])} && coqc Properties/{pid}.v (Print Assumptions)"
                        + (" && coqchk -o -silent" if tier == "thorough" else ""),
         "trusted_base": spec["trusted_base"],
-        "theorems": names,
-        "print_assumptions": assum,
-        "evaluations": len(cases) + searched,
-        "distinct_nontrivial": len(nontriv),
-        "rule": spec["rule"],
-        "samples": samples,
-        "corpus_scripts": ncorpus,
-        "ops_total": sum(c["nops"] for c in cases),
-        "scenario_histogram": dict(tag_hist),
-        "script_length_histogram": {str(k): v for k, v in sorted(sizes.items())},
-        "disagreements_checked": len(mism),
-        "monitor_rejections": len(monf),
-        "known_findings_reproduced": list(known_hits.keys()),
-        "notes": R.notes + ([f"coqchk: {chk_note}"] if chk_note else []),
+        "theorems": P["names"],
+        "print_assumptions": P["assum"],
+        "evaluations": sum(r["evaluations"] for r in results),
+        "distinct_nontrivial": sum(r["nontrivial"] for r in results),
+        "rule": " || ".join((f"[{r['name']}] " if r["name"] else "") + r["rule"] for r in results),
+        "samples": [s for r in results for s in r["samples"]],
+        "corpus_scripts": sum(r["corpus"] for r in results),
+        "ops_total": sum(r["ops_total"] for r in results),
+        "scenario_histogram": {(r["name"] or "all"): r["tag_hist"] for r in results},
+        "script_length_histogram": {(r["name"] or "all"): r["sizes"] for r in results},
+        "disagreements_checked": sum(r["mism"] for r in results),
+        "monitor_rejections": sum(r["monf"] for r in results),
+        "known_findings_reproduced": [k for r in results for k in r["known_hits"]],
+        "notes": [n for r in results for n in r["notes"]]
+                 + ([f"coqchk: {P['chk_note']}"] if P["chk_note"] else []),
         "exhaustive": False,
     }
-    V.write_evidence(pid, tier, seed, coverage, assumptions_used, time.time() - R.t0, len(viol_lines))
-
-    for sig, small in known_hits.items():
-        desc = dict(known)[sig]
-        V.log(f"KNOWN-FINDING: property={pid} {sig}: {desc} [script {small}]")
-    for sig, _ in known:
-        if sig not in known_hits and spec.get("known_witness", {}).get(sig):
-            # the listed finding is re-established from its committed witness on every run
-            w = spec["known_witness"][sig]
-            wc, wcodes = R.run_scripts([w], "known")
-            if wcodes[0] & 2:
-                V.log(f"KNOWN-FINDING: property={pid} {sig}: {dict(known)[sig]} [script {w}]")
-            else:
-                V.log(f"note: known finding {sig} no longer reproduces on its witness {w}")
+    V.write_evidence(pid, tier, seed, coverage, list(spec.get("assumptions", [])),
+                     time.time() - t0, len(viol_lines))
+    for r in results:
+        for m in r["known_msgs"]:
+            V.log(m)
     for v in viol_lines:
         V.log(v)
-    V.log(f"{pid} {tier}: theorems {discharged}/{obligations}, {len(cases)} scripts "
-          f"({len(nontriv)} non-trivial), {len(mism)} model/impl disagreements, "
-          f"{len(monf)} monitor rejections, {time.time() - R.t0:.1f}s")
+    V.log(f"{pid} {tier}: theorems {P['discharged']}/{P['obligations']}, "
+          f"{coverage['evaluations']} scripts ({coverage['distinct_nontrivial']} non-trivial), "
+          f"{coverage['disagreements_checked']} model/impl disagreements, "
+          f"{coverage['monitor_rejections']} monitor rejections, {time.time() - t0:.1f}s")
     return 1 if viol_lines else 0
 
 
-def replay(spec, script):
+def replay(spec, script, part_name=None):
+    if spec.get("parts"):
+        part = next((p for p in spec["parts"] if p.get("name") == part_name), spec["parts"][0])
+        sub = dict(spec)
+        sub.update(part)
+        spec = sub
     R = PropertyRun(spec, "quick", 0)
     V.cargo_build()
     ok, out = V.make_targets(spec["coq_targets"])
